@@ -99,6 +99,9 @@ func genC17(ref core.CaseRef, r *rand.Rand) *c17Case {
 		tuples = [][]any{{"a", nil}, {"a", ""}, {nil, "a"}, {"", "a"}}[:max(2, want)]
 	case ncols == 1 && flavour == 0:
 		tuples = [][]any{{nil}, {""}, {"a"}, {" "}}[:max(2, want)]
+	case ncols == 1 && flavour == 1:
+		// texts that spell what a key encoding might reserve for NULL, next to NULL itself
+		tuples = [][]any{{nil}, {`\N`}, {`\\N`}, {"NULL"}}[:max(2, want)]
 	default:
 		hostile := r.Intn(2) == 0
 		doms := make([][]any, ncols)
